@@ -88,6 +88,17 @@ def mp4descriptor(tag: int):
 
 mp4descriptor.DESCRIPTORS: dict[int, "Descriptor"] = {}  # map from descriptor tag to class
 
+def read_payload(src: BinaryIO, size: int) -> bytes:
+    """
+    Read the payload of a box. A corrupt 64 bit size can be far larger than
+    anything a reader can allocate, which is a parse error and not a MemoryError.
+    """
+    try:
+        return src.read(size)
+    except (MemoryError, OverflowError) as err:
+        raise ValueError(f'box payload of {size} bytes is too large') from err
+
+
 class BytesIoWithOffset(io.BufferedReader):
     def __init__(self, data: bytes, offset: int) -> None:
         super().__init__(io.BytesIO(data))
@@ -757,7 +768,7 @@ class UnknownBox(Mp4Atom):
         rv = Mp4Atom.parse(src, *args, **kwargs)
         size = rv["size"] - rv["header_size"]
         if size > 0:
-            rv["data"] = src.read(size)
+            rv["data"] = read_payload(src, size)
         else:
             rv["data"] = None
         return rv
@@ -791,7 +802,7 @@ class LazyLoadedBox(Mp4Atom):
         rv = initial_data
         size = rv["size"] - rv["header_size"]
         if size > 0:
-            rv['_buffer'] += src.read(size)
+            rv['_buffer'] += read_payload(src, size)
         return rv
 
     def encode(self, dest=None, depth: int = 0):
